@@ -43,20 +43,33 @@ Fixpoint rc (s : bytes) (skip : nat) : nat :=
   end.
 Definition rune_count (s : bytes) : nat := rc s 0.
 
-Inductive sty := VarChar (n : nat) | VarBinary (n : nat) | Text.   (* utf8mb4 VARCHAR(n), VARBINARY(n), TEXT *)
+(* utf8mb4 VARCHAR(n), VARBINARY(n), TEXT, CHAR(n), BINARY(n) *)
+Inductive sty := VarChar (n : nat) | VarBinary (n : nat) | Text | Char (n : nat) | Binary (n : nat).
 
-Definition str_sql_text (t : sty) (s : bytes) : bytes := s.
 Definition text_max_bytes : nat := Z.to_nat 65535.
-(* Convert(text): the length checks of ConvertToBytes *)
+(* Convert: the length checks of ConvertToBytes; a BINARY(n) value is right-padded with 0x00 to n bytes when it is
+   stored; a CHAR(n) value is kept as given (no padding, no stripping of trailing spaces) *)
 Definition str_convert_text (t : sty) (s : bytes) : option bytes :=
   match t with
-  | VarChar n => if (length s <=? n)%nat || (rune_count s <=? n)%nat then Some s else None
+  | VarChar n | Char n => if (length s <=? n)%nat || (rune_count s <=? n)%nat then Some s else None
   | VarBinary n => if (length s <=? n)%nat then Some s else None
+  | Binary n => if (length s <=? n)%nat then Some (s ++ repeat 0 (n - length s)) else None
   | Text => if (length s <=? text_max_bytes)%nat then Some s else None
+  end.
+(* SQL: binary types go through ConvertToBytes again (so BINARY pads; too long a value is an error: None);
+   the others are sent as they are *)
+Definition str_sql_text (t : sty) (s : bytes) : option bytes :=
+  match t with
+  | VarBinary _ | Binary _ => str_convert_text t s
+  | _ => Some s
   end.
 Definition str_storable (t : sty) (s : bytes) : Prop := str_convert_text t s = Some s.
 Definition str_announced (t : sty) : nat :=
-  match t with VarChar n => (n * 4)%nat | VarBinary n => n | Text => (text_max_bytes * 4)%nat end.
+  match t with
+  | VarChar n | Char n => (n * 4)%nat
+  | VarBinary n | Binary n => n
+  | Text => (text_max_bytes * 4)%nat
+  end.
 
 (* ---------- proofs ---------- *)
 Lemma size_at_le4 s : (1 <= size_at s <= 4)%nat.
@@ -80,15 +93,34 @@ Theorem bytes_le_4_runes s : (length s <= 4 * rune_count s)%nat.
 Proof. unfold rune_count. pose proof (rc_bound s 0). lia. Qed.
 
 Theorem str_text_roundtrip t s : str_storable t s ->
-  str_convert_text t (str_sql_text t s) = Some s /\ (length (str_sql_text t s) <= str_announced t)%nat.
+  str_sql_text t s = Some s /\ str_convert_text t s = Some s /\ (length s <= str_announced t)%nat.
 Proof.
-  unfold str_storable, str_sql_text. intros H. split; [exact H|].
-  destruct t as [n|n|]; cbn [str_convert_text str_announced] in *.
+  unfold str_storable. intros H. split; [destruct t; cbn [str_sql_text]; auto|]. split; [exact H|].
+  destruct t as [n|n| |n|n]; cbn [str_convert_text str_announced] in *.
   - destruct ((length s <=? n)%nat || (rune_count s <=? n)%nat) eqn:E; [|discriminate].
     apply orb_prop in E. pose proof (bytes_le_4_runes s).
     destruct E as [E|E]; apply Nat.leb_le in E; lia.
   - destruct (length s <=? n)%nat eqn:E; [|discriminate]. apply Nat.leb_le in E. lia.
   - destruct (length s <=? text_max_bytes)%nat eqn:E; [|discriminate]. apply Nat.leb_le in E. lia.
+  - destruct ((length s <=? n)%nat || (rune_count s <=? n)%nat) eqn:E; [|discriminate].
+    apply orb_prop in E. pose proof (bytes_le_4_runes s).
+    destruct E as [E|E]; apply Nat.leb_le in E; lia.
+  - destruct (length s <=? n)%nat eqn:E; [|discriminate]. apply Nat.leb_le in E. lia.
+Qed.
+
+(* whatever Convert accepts, what it stores is a fixpoint: storing pads BINARY(n) to exactly n bytes, once *)
+Theorem str_convert_storable t r s : str_convert_text t r = Some s -> str_storable t s.
+Proof.
+  unfold str_storable. destruct t as [n|n| |n|n]; cbn [str_convert_text]; intros H.
+  1-4: match type of H with (if ?c then _ else _) = _ => destruct c eqn:E; [|discriminate] end; injection H as <-; now rewrite E.
+  destruct (length r <=? n)%nat eqn:E; [|discriminate]. apply Nat.leb_le in E. injection H as <-.
+  rewrite app_length, repeat_length. replace (length r + (n - length r))%nat with n by lia.
+  rewrite Nat.leb_refl, Nat.sub_diag. cbn [repeat]. now rewrite app_nil_r.
+Qed.
+Lemma binary_stored_length n r s : str_convert_text (Binary n) r = Some s -> length s = n.
+Proof.
+  cbn [str_convert_text]. destruct (length r <=? n)%nat eqn:E; [|discriminate]. apply Nat.leb_le in E.
+  intros H. injection H as <-. rewrite app_length, repeat_length. lia.
 Qed.
 
 Example str_nonvacuous :
